@@ -16,6 +16,7 @@ import (
 	"github.com/openfga/openfga/internal/verifsim/simrt"
 	"github.com/openfga/openfga/internal/verifsim/simstore"
 	"github.com/openfga/openfga/pkg/server"
+	"github.com/openfga/openfga/pkg/typesystem"
 )
 
 // C16: store isolation. 2-3 stores hold the SAME model text (own model ids) and tuples over the
@@ -46,6 +47,38 @@ func c16Gen(runSeed uint64, tier string) *gen.Scenario {
 		return out
 	}
 	sc.Tuples = valid(sc.Tuples)
+	// stores beyond the first get a variant of the model (two relations of one type exchange their
+	// definitions: same names, different meaning) in most runs, so that a model, typesystem or
+	// cache entry leaking across stores changes answers
+	models := []*rm.Model{sc.Model}
+	for s := 1; s < nStores; s++ {
+		var v *rm.Model
+		if g.Chance(0.7) {
+			v = g.SwapVariant(sc.Model)
+			if v != nil && !gen.Stratified(v) {
+				v = nil
+			}
+		}
+		sc.Models = append(sc.Models, v)
+		if v == nil {
+			v = sc.Model
+		}
+		models = append(models, v)
+	}
+	if g.Chance(0.3) {
+		sc.Knobs["same_model_id"] = 1 // every store holds its model under the SAME model id
+	}
+	validFor := func(m *rm.Model, ts []rm.Tuple) []rm.Tuple {
+		var out []rm.Tuple
+		seen := map[string]bool{}
+		for _, t := range ts {
+			if m.ValidForWrite(t) && !m.AmbiguousCondShape(t) && !seen[t.Key()] {
+				seen[t.Key()] = true
+				out = append(out, t)
+			}
+		}
+		return out
+	}
 	pools := make([][]rm.Tuple, nStores)
 	present := make([]map[string]bool, nStores)
 	var ops []gen.Op
@@ -55,13 +88,13 @@ func c16Gen(runSeed uint64, tier string) *gen.Scenario {
 		if s == 0 {
 			init = sc.Tuples
 		} else {
-			init = valid(g.Tuples(sc.Model, 4+g.Intn(20), 0))
+			init = validFor(models[s], g.Tuples(models[s], 4+g.Intn(20), 0))
 			ops = append(ops, gen.Op{Kind: "setup", Store: s, Writes: init})
 		}
 		for _, t := range init {
 			present[s][t.Key()] = true
 		}
-		pools[s] = valid(g.Tuples(sc.Model, 6, 0))
+		pools[s] = validFor(models[s], g.Tuples(models[s], 6, 0))
 	}
 	checks := g.CheckRequests(sc.Model, 6, [3]float64{0.8, 0.1, 0.1})
 	los := g.ListObjectsRequests(sc.Model, 3, [3]float64{0.8, 0.1, 0.1})
@@ -90,13 +123,23 @@ func c16Gen(runSeed uint64, tier string) *gen.Scenario {
 			// the same request to every live store, back to back, in a seed-chosen order: what one
 			// store caches is the next store's temptation
 			r := gen.Pick(g, reqs)
-			order := g.R.Perm(nStores)
-			for _, s2 := range order {
+			var order []string
+			for _, s2 := range g.R.Perm(nStores) {
 				if !deleted[s2] {
-					rr := r
-					ops = append(ops, gen.Op{Kind: "req", Store: s2, Req: &rr})
+					order = append(order, fmt.Sprint(s2))
 				}
 			}
+			op := gen.Op{Kind: "reqall", Req: &r, S: strings.Join(order, ",")}
+			if g.Chance(0.4) {
+				op.N = 1 // all at once
+			}
+			switch x := g.Intn(100); {
+			case x < 15:
+				op.Model = 1 // every store is asked with the FIRST listed store's model id
+			case x < 40:
+				op.Model = 2 // no model id: each store must resolve its own latest model
+			}
+			ops = append(ops, op)
 		case x < 65 && len(pools[s]) > 0:
 			t := gen.Pick(g, pools[s])
 			if present[s][t.Key()] {
@@ -162,6 +205,7 @@ func c16Gen(runSeed uint64, tier string) *gen.Scenario {
 
 type c16Store struct {
 	id, name, modelID string
+	model             *rm.Model
 	cur               []rm.Tuple
 	states            [][]rm.Tuple
 	changes           []string // "w key" / "d key" in commit order
@@ -196,7 +240,7 @@ func c16Exec(t *testing.T, sc *gen.Scenario, trace bool) *harness.Outcome {
 		}
 		n := int(sc.Knob("stores", 2))
 		stores := make([]*c16Store, n)
-		stores[0] = &c16Store{id: e.StoreID, name: "S1", modelID: e.ModelID, cur: append([]rm.Tuple(nil), sc.Tuples...)}
+		stores[0] = &c16Store{id: e.StoreID, name: "S1", modelID: e.ModelID, model: sc.Model, cur: append([]rm.Tuple(nil), sc.Tuples...)}
 		for _, t := range sc.Tuples {
 			stores[0].changes = append(stores[0].changes, "w "+t.Key())
 		}
@@ -209,14 +253,27 @@ func c16Exec(t *testing.T, sc *gen.Scenario, trace bool) *harness.Outcome {
 				e.Out.Infra = "create store: " + err.Error()
 				return
 			}
-			m := sc.Model.ToProto()
-			m.Id = e.NewULID(300 + k)
-			e.Run.Name(m.Id, fmt.Sprintf("M%d", k+1))
+			rmod := sc.Model
+			if k-1 < len(sc.Models) && sc.Models[k-1] != nil {
+				if _, err := typesystem.NewAndValidate(bg, sc.Models[k-1].ToProto()); err != nil {
+					e.Out.Skip = "invalid_variant_model"
+					return
+				}
+				rmod = sc.Models[k-1]
+				simrt.Probe("store_with_variant_model")
+			}
+			m := rmod.ToProto()
+			if sc.Knob("same_model_id", 0) == 1 {
+				m.Id = e.ModelID
+			} else {
+				m.Id = e.NewULID(300 + k)
+				e.Run.Name(m.Id, fmt.Sprintf("M%d", k+1))
+			}
 			if err := e.Mem.WriteAuthorizationModel(bg, id, m); err != nil {
 				e.Out.Infra = "write model: " + err.Error()
 				return
 			}
-			stores[k] = &c16Store{id: id, name: name, modelID: m.Id}
+			stores[k] = &c16Store{id: id, name: name, modelID: m.Id, model: rmod}
 		}
 		byName := map[string]bool{}
 		for _, st := range stores {
@@ -225,7 +282,10 @@ func c16Exec(t *testing.T, sc *gen.Scenario, trace bool) *harness.Outcome {
 		judgeAgainst := func(st *c16Store, rq gen.Request, a anyAns, tuples []rm.Tuple) *harness.Violation {
 			saved := e.Out.Violation
 			e.Out.Violation = nil
-			ref := rm.NewState(sc.Model, append(append([]rm.Tuple(nil), tuples...), rq.CtxTuples...))
+			savedModel := sc.Model
+			sc.Model = st.model // the judges read the scenario's model for signatures
+			defer func() { sc.Model = savedModel }()
+			ref := rm.NewState(st.model, append(append([]rm.Tuple(nil), tuples...), rq.CtxTuples...))
 			split := func(s string) []string {
 				if s == "" {
 					return nil
@@ -246,7 +306,7 @@ func c16Exec(t *testing.T, sc *gen.Scenario, trace bool) *harness.Outcome {
 		}
 		for i, op := range sc.Ops {
 			var st *c16Store
-			if op.Store < len(stores) && op.Kind != "stores" && op.Kind != "sleep" {
+			if op.Store < len(stores) && op.Kind != "stores" && op.Kind != "sleep" && op.Kind != "reqall" {
 				st = stores[op.Store]
 			}
 			id := fmt.Sprintf("op%d", i)
@@ -292,47 +352,117 @@ func c16Exec(t *testing.T, sc *gen.Scenario, trace bool) *harness.Outcome {
 					st.changes = append(st.changes, "d "+t.Key())
 				}
 				simrt.Probe("writes")
-			case "req":
-				rq := *op.Req
-				rq.Store, rq.ModelID = st.id, st.modelID
-				a := e.issue(ctx, s, st.id, rq)
-				e.Out.Evals++
-				e.Run.Log("resp", fmt.Sprintf("op%d %s %s %v", i, st.name, rq.Kind, a))
+			case "reqall":
+				var targets []*c16Store
+				for _, x := range strings.Split(op.S, ",") {
+					var k int
+					fmt.Sscan(x, &k)
+					if k < len(stores) && !stores[k].deleted {
+						targets = append(targets, stores[k])
+					}
+				}
+				if len(targets) == 0 {
+					break
+				}
+				type ans struct {
+					a     anyAns
+					trunc bool
+					rid   string
+				}
+				res := make([]ans, len(targets))
+				issueTo := func(k int) {
+					tst := targets[k]
+					rq := *op.Req
+					rq.Store, rq.ModelID = tst.id, tst.modelID
+					switch op.Model {
+					case 1:
+						rq.ModelID = targets[0].modelID
+					case 2:
+						rq.ModelID = "-"
+					}
+					rid := fmt.Sprintf("op%d.%s", i, tst.name)
+					c2, cancel2 := context.WithTimeout(simrt.WithReq(context.Background(), rid), 10*time.Second)
+					a := e.issue(c2, s, tst.id, rq)
+					cancel2()
+					res[k] = ans{a, e.Truncated, rid}
+				}
+				if op.N == 1 && len(targets) > 1 {
+					done := make(chan struct{}, len(targets))
+					for k := range targets {
+						k := k
+						e.Run.Go(fmt.Sprintf("op%d.c%d", i, k), func() { issueTo(k); done <- struct{}{} })
+					}
+					for range targets {
+						<-done
+					}
+					simrt.Probe("concurrent_groups")
+				} else {
+					for k := range targets {
+						issueTo(k)
+					}
+				}
 				if e.Hung {
 					cancel()
 					return
 				}
-				if a.err {
-					if len(rm.NewState(sc.Model, st.cur).Unevaluable(rq.Ctx)) == 0 {
-						simrt.Probe("request_error")
-					}
-					break
-				}
-				trunc := e.Truncated
-				v := judgeAgainst(st, rq, a, st.cur)
-				for k := len(st.states) - 1; k >= 0 && v != nil; k-- {
-					e.Truncated = trunc
-					if judgeAgainst(st, rq, a, st.states[k]) == nil {
-						v = nil
-						simrt.Probe("answer_from_older_state_of_same_store")
-					}
-				}
-				if v != nil {
-					// does another store's data explain it?
-					expl := ""
-					for _, o := range stores {
-						if o != st {
-							e.Truncated = trunc
-							if judgeAgainst(o, rq, a, o.cur) == nil {
-								expl = " explained_by_other_store"
-							}
+				for k, tst := range targets {
+					a := res[k].a
+					rq := *op.Req
+					e.Out.Evals++
+					e.Run.Log("resp", fmt.Sprintf("op%d %s %s %v", i, tst.name, rq.Kind, a))
+					for touched, cnt := range e.DS.Touched(res[k].rid) {
+						if touched != tst.name && byName[touched] {
+							e.Violate("foreign_store_touched", "op=req", "op %d (%s on %s) issued %d storage operations against store %s", i, rq.Kind, tst.name, cnt, touched)
+							cancel()
+							return
 						}
 					}
-					v.Sig += expl
-					v.Detail = fmt.Sprintf("op %d in store %s (of %d): ", i, st.name, n) + v.Detail
-					e.Out.Violation = v
-					cancel()
-					return
+					if op.Model == 1 && tst.modelID != targets[0].modelID {
+						// a model id of ANOTHER store: the only admissible outcome is an error
+						simrt.Probe("foreign_model_id_requests")
+						if !a.err {
+							e.Violate("foreign_model_accepted", "kind="+rq.Kind, "op %d: %s in store %s with the model id of store %s was answered (%s) instead of rejected", i, rq.Kind, tst.name, targets[0].name, a.s)
+							cancel()
+							return
+						}
+						continue
+					}
+					if a.err {
+						if len(rm.NewState(tst.model, tst.cur).Unevaluable(rq.Ctx)) == 0 {
+							simrt.Probe("request_error")
+						}
+						continue
+					}
+					trunc := res[k].trunc
+					if op.N == 1 && rq.Kind == "listusers" {
+						trunc = true // the truncation flag is per Env, not per call: be conservative for concurrent calls
+					}
+					e.Truncated = trunc
+					v := judgeAgainst(tst, rq, a, tst.cur)
+					for j := len(tst.states) - 1; j >= 0 && v != nil; j-- {
+						e.Truncated = trunc
+						if judgeAgainst(tst, rq, a, tst.states[j]) == nil {
+							v = nil
+							simrt.Probe("answer_from_older_state_of_same_store")
+						}
+					}
+					if v != nil {
+						expl := ""
+						for _, o := range stores {
+							if o != tst {
+								e.Truncated = trunc
+								o2 := *o
+								if judgeAgainst(&o2, rq, a, o.cur) == nil {
+									expl = " explained_by_other_store"
+								}
+							}
+						}
+						v.Sig += expl
+						v.Detail = fmt.Sprintf("op %d in store %s (of %d): ", i, tst.name, n) + v.Detail
+						e.Out.Violation = v
+						cancel()
+						return
+					}
 				}
 			case "read":
 				f := op.Req
